@@ -35,10 +35,11 @@ CLAIMS = {
          "an incomplete buffer gives ErrPacketNotComplete and consumes nothing; a prefix below 4 is refused; the blocking extractor returns a whole frame or an error, never a partial frame. "
          "Arrival patterns are discharged by the prefix-stability lemmas (a complete frame stays the same frame whatever arrives after it; the length field depends on the first four octets only), proved from T0.",
          "ConnReader / io.ReadFull behave as the interface comment says (A-CONN); the induction over the chunk sequence that combines the per-call contract with the lemmas is a paper step. "),
- "C05": ("ASCII codec proved (isASCII loop, identity image, refusal); coding-number functions proved by case analysis over all numbers; DecodeCMPPCContent / DecodeSMPPCContent proved to select, for every 8-bit / int coding number, "
-         "the decoder of the coding that the encoders select for the same number and to refuse every other number with ErrUnsupportedDataCoding; lemma: given the inverse law of the assumed codecs, the selected decoder inverts the selected encoder; "
-         "septet packing/unpacking (the packed GSM 7-bit codec's lower half) proved bit-exactly under C08 with exactly the property's end-of-message carve-out.",
-         "ASSUMED, not proved (A-XTEXT): Latin-1 (Windows-1252), UCS-2, GB18030 and unpacked GSM 7-bit are thin wrappers over x/text transformers; their 'either fail or emit what the decoder inverts' law is the property itself for those codings and is taken as hypothesis (uninterpreted xenc/xdec/xok). The rune-level meaning of gsm7encoding.Encode/Decode is not proved either (see C08). "),
+ "C05": ("ASCII codec proved (isASCII loop, identity image, refusal). GSM 7-bit: gsm7encoding.Encode/Decode proved rune by rune against the tables (a rune outside both tables is refused, never replaced or dropped), the tables proved mutually inverse, "
+         "Decode(Encode(s)) == s proved by induction for valid UTF-8 (gsm_text_roundtrip), the packed codec GSM7Packed.Encode/Decode proved to be Pack.Encode / Decode.Unpack with Pack/Unpack bit-exact under C08 and Unpack-inverts-Pack septet by septet (the property's end-of-message carve-out exactly). "
+         "Coding-number functions proved by case analysis over all numbers; DecodeCMPPCContent / DecodeSMPPCContent proved to select, for every coding number, the decoder of the coding that the encoders select for the same number and to refuse every other number with ErrUnsupportedDataCoding; "
+         "lemmas (CMPP and SMPP numbers): for valid UTF-8 text, given the inverse law of the assumed codecs, the selected decoder inverts the selected encoder.",
+         "ASSUMED, not proved (A-XTEXT): Latin-1 (Windows-1252), UCS-2, GB18030 and the stream-transformer form of unpacked GSM 7-bit go through x/text's transform.Bytes; their 'either fail or emit what the decoder inverts' law is a hypothesis of the lemmas (uninterpreted xenc/xdec/xok) and is checked only by the thorough tier's bounded validator over every Unicode scalar value (GB18030 private-use carve-out as in the property). The last composition step Unpack(Pack(X)) == X between the bit-vector level and the sequence level is a stated hypothesis. "),
  "C06": ("splitWithUDHI proved (loop invariant) to produce exactly ceil(n/per) parts, part k being the 6-octet header followed by octets [per*k, min(per*(k+1), n)) of the encoded data - pointwise, so nothing is lost, repeated or reordered; "
          "EncodeCMPPContentAndSplit / EncodeSMPPContentAndSplit proved over all coding numbers: the reported coding is the requested one when it is valid and its codec accepts the text, UCS-2 otherwise, an error only if UCS-2 fails too; a message that fits is one part without header; "
          "the packed GSM 7-bit splitter proved with recursive spec functions (cut points, part count) to cover the septet string exactly once. Repaired: D11, D12, D26.",
@@ -49,10 +50,12 @@ CLAIMS = {
  "C14": ("Packed GSM 7-bit path: every cut point k satisfies septet[k-1] != ESC (from Encode's proved output discipline: ESC is always followed by an extension code, never by ESC), for all messages. "
          "Generic splitter: the boundary clauses (no UTF-16 high surrogate / no unpacked ESC immediately before a cut) are stated and FAIL - known finding D14, replayed on every run.",
          "GB18030 two-octet boundaries are not stated (no scanner spec); D14 covers them informally. "),
- "C08": ("Pack and Unpack proved bit-exactly against TS 23.038 6.1.2.1.1 for all lengths (bit-vector + array obligations, loop invariants per 8-septet block, CR filler, the end-of-message carve-out exactly as stated in the property); "
-         "the four alphabet tables compared entry by entry with the independently transcribed TS 23.038 table (ground); Encode proved to emit only table codes with every ESC followed by an extension code and to refuse other runes; "
-         "Decode / ValidateGSM7Buffer proved total, terminating and within the allocation budget.",
-         "Not proved: the rune-level function Encode/Decode compute (UTF-8 reasoning) and the two stream transformers (textual duplicates of the proved loops) - see DESIGN.md; int(math.Ceil(float64(n)*7/8)) == (7n+7)/8 for n < 2^22 is assumed (A-CEIL). "),
+ "C08": ("Pack and Unpack proved bit-exactly against TS 23.038 6.1.2.1.1 for all lengths (bit-vector + array obligations, loop invariants per 8-septet block, CR filler, the end-of-message carve-out exactly as stated in the property), "
+         "and the lemma unpack_inverts_pack: any octet string satisfying Pack's postcondition for S yields S[j] at every septet position j under Unpack's specification; "
+         "the four alphabet tables compared entry by entry with the independently transcribed TS 23.038 table (ground) and proved mutually inverse with no default code equal to ESC (gsm_tables_inverse); "
+         "Encode proved to return exactly the table image of the text rune by rune (recursive spec gsmseq) and to succeed iff every rune is in one of the two tables; Decode proved to return exactly the text of its septets (gsmtext) and to succeed iff they are well-formed; "
+         "Decode(Encode(s)) == s for valid UTF-8 proved by induction on the remaining length (lemma gsm_text_roundtrip). ValidateGSM7Buffer proved total, terminating and within the allocation budget.",
+         "Not proved: the two stream transformers' functional agreement with the function pair (their loops are textual duplicates; only safety, termination and bounds are proved for them); the last composition step Unpack(Pack(X)) == X across the bit-vector and sequence levels is stated as a hypothesis of packed_codec_roundtrip; UTF-8: utf8from (the rune yielded at i re-encodes to the octets read) is the definition of valid UTF-8 used, not derived from unicode/utf8 (A-UTF8); int(math.Ceil(float64(n)*7/8)) == (7n+7)/8 for n < 2^22 is assumed (A-CEIL, validated exhaustively in the thorough tier). "),
  "C15": ("GenConnectAuth, GenConnectRespAuthISMG, genAuthenticatorClient, TimeStamp2Str, cmpp20.NewConnect and smgp30.NewLogin proved to compute the protocol's digest formula (md5 uninterpreted, 16 octets) over account, zero padding, secret and the ten-digit timestamp that the PDU carries; "
          "the decode clauses of the six 16-octet authenticator slots (C01) are part of this check, so the peer's recomputation equals what it receives. Known finding D3d (SMGP login response slot) carved out.",
          "crypto/md5, fmt %010d, time formatting and strconv.Atoi of the MMDDhhmmss string are assumed models (A-MD5, A-FMT10, A-ATOI). "),
